@@ -362,3 +362,23 @@ def ropey_features():
     except Exception:
         return None
     return None
+
+
+def conversion_basis(ck, prog, rule):
+    """shared with C09 (every range the server sends goes through these conversions): the line-terminator set ropey is
+    built with, and the unit each LineIndex method returns"""
+    bodies = [b for p, b in prog.bodies.items() if p.startswith(LI) and not b.parent]
+    ck.anchor(len(bodies) >= 3, "LineIndex methods not found")
+    feats = ropey_features()
+    ck.ob(rule, "ropey-features", feats is not None and "cr_lines" in feats and "unicode_lines" not in feats,
+          "ropey resolved features: %s" % feats,
+          msg="line lookup is delegated to ropey built with features %s: with `unicode_lines` VT, FF, NEL, U+2028 and U+2029 "
+              "count as line breaks (every range after such a character is sent one line too far down); without `cr_lines` a "
+              "lone CR does not" % feats)
+    for b in bodies:
+        name = b.path.rsplit("::", 1)[-1]
+        if name in LI_RESULT:
+            got = Units(prog, b, param_units(b)).local(0)
+            ck.ob(rule, "result:%s" % name, got in (LI_RESULT[name], "const"), "%s returns %s" % (name, got),
+                  msg="LineIndex::%s returns a value in %s, expected %s: positions sent to the client are off for text with "
+                      "multi-byte or astral characters" % (name, got, LI_RESULT[name]))
